@@ -1097,7 +1097,10 @@ where
                         .unwrap_or(trimmed)
                         .trim()
                         .strip_prefix("@jsx")
-                        .map(str::trim)
+                        // `@jsxImportSource`, `@jsxRuntime`, `@jsxFrag` are other annotations
+                        .filter(|rest| rest.starts_with(char::is_whitespace))
+                        // the factory is the first word
+                        .and_then(|rest| rest.split_whitespace().next())
                 });
                 if let Some(pragma) = pragma {
                     self.pragma = Some(pragma.to_string());
